@@ -68,6 +68,14 @@ BREAKING = [
     ('parse-element-multiplicity-result-dropped', 'C08', MAIN + 'parser.rs', r'self\.check_multiplicity\(name, element\.elemtype, &elem_idx, &element\)\?;', 'let _ = self.check_multiplicity(name, element.elemtype, &elem_idx, &element);', 'repeated single-occurrence element accepted (result of the check dropped)'),
     ('parse-element-shortname-check-lenient-only', 'C08', MAIN + 'parser.rs', r'\} else if element\.elemtype\.is_named_in_version\(self\.fileversion\) \{', '} else if element.elemtype.is_named_in_version(self.fileversion) && !self.strict {', 'missing SHORT-NAME accepted by strict loading'),
     ('parse-element-multiplicity-skipped-when-advancing', 'C08', MAIN + 'parser.rs', r'if !element\.content\.is_empty\(\) \{\n(\s*)self\.check_multiplicity', 'if !element.content.is_empty() && element.content.len() % 2 == 1 {\n\\1self.check_multiplicity', 'multiplicity checked only for every other child'),
+    ('compat-shortname-own-type', 'C17', MAIN + 'element.rs', r'if elemtype_new\.is_named_in_version\(target_version\) && self\.get_sub_element\(ElementName::ShortName\)\.is_none\(\) \{', 'if self.element_type().is_named_in_version(target_version) && self.get_sub_element(ElementName::ShortName).is_none() {', 'SHORT-NAME test with the type of the source version (shape of defect 85be36c)'),
+    ('compat-chardata-ignored', 'C17', MAIN + 'element.rs', r'cdata\.check_version_compatibility\(value_spec, target_version\);\n(\s*)if !is_compatible \{', 'cdata.check_version_compatibility(value_spec, target_version);\n\\1if !is_compatible && value_version_mask == 0 {', 'incompatible character data reported only for unlisted values (shape of defect f4badea)'),
+    ('attr-required-only-with-attributes', 'C08', MAIN + 'parser.rs', r'if required && !attributes\.iter\(\)\.any\(', 'if required && !attributes.is_empty() && !attributes.iter().any(', 'missing required attribute accepted when the element has no attributes at all'),
+    ('attr-version-check-result-dropped', 'C08', MAIN + 'parser.rs', r'(version: self\.fileversion,\n\s*\},\n\s*\))\?;\n(\s*)let attr_value = self\.parse_character_data', '\\1.ok();\n\\2let attr_value = self.parse_character_data', 'attribute of another version accepted in strict mode'),
+    ('sort-ordered-containers', 'C14', MAIN + 'elementraw.rs', r'if !self\.elemtype\.is_ordered\(\) && len > 1 \{', 'if len > 1 {', 'ordered containers are sorted'),
+    ('range-start-not-advanced', 'C07', MAIN + 'elementraw.rs', r'start_pos = idx \+ 1;\n(\s*)end_pos = idx \+ 1;', 'end_pos = idx + 1;', 'range starts before an earlier sibling'),
+    ('create-at-no-lower-bound', 'C07', MAIN + 'elementraw.rs', r'if start_pos <= position && position <= end_pos \{\n(\s*)self\.create_sub_element_inner', 'if position <= end_pos {\n\\1self.create_sub_element_inner', 'creation before the start of the range accepted'),
+    ('set-attribute-string-no-version', 'C07', MAIN + 'elementraw.rs', r'if !version\.compatible\(attr_version\) \{', 'if !version.compatible(attr_version) && attr_version == 0 {', 'set_attribute_string accepts attributes of other versions'),
 ]
 
 HARMLESS = [
